@@ -454,7 +454,7 @@ Hclose(int32 file_id)
         } /* end if */
 
     /* version tags */
-    if ((file_rec->refcount > 0) && (file_rec->version.modified == 1))
+    if ((file_rec->refcount > 0) && (file_rec->version.modified == 1) && (file_rec->access & DFACC_WRITE))
         if (HIupdate_version(file_id) == FAIL)
             HGOTO_ERROR(DFE_INTERNAL, FAIL);
 
